@@ -419,7 +419,8 @@ pub fn op_spider(s1: &RFF, t1: &RFF, w1: Vec<usize>) -> Sx {
     opt(Lf::spider(Cv::<VecKind>::ff(s1), Cv::<VecKind>::ff(t1), w1).map(|f| enc_lf(&f)))
 }
 pub fn op_tensor(a: &RLf, bb: &RLf) -> Sx {
-    ok(enc_lf(&a.to_lf().tensor(&bb.to_lf())))
+    let (x, y) = (a.to_lf(), bb.to_lf());
+    ok(enc_lf(&(if x.hypergraph.nodes.len() % 2 == 1 { &x | &y } else { x.tensor(&y) })))
 }
 pub fn op_tensor_assign(a: &RLf, bb: &RLf) -> Sx {
     let mut x = a.to_lf();
@@ -438,7 +439,8 @@ pub fn op_coproduct_assign(a: &RLf, bb: &RLf) -> Sx {
     ok(enc_lh(&x))
 }
 pub fn op_compose(a: &RLf, bb: &RLf) -> Sx {
-    opt(a.to_lf().compose(&bb.to_lf()).map(|r| enc_lf(&r)))
+    let (x, y) = (a.to_lf(), bb.to_lf());
+    opt((if x.hypergraph.nodes.len() % 2 == 1 { &x >> &y } else { x.compose(&y) }).map(|r| enc_lf(&r)))
 }
 pub fn op_lax_compose(a: &RLf, bb: &RLf) -> Sx {
     opt(a.to_lf().lax_compose(&bb.to_lf()).map(|r| enc_lf(&r)))
